@@ -188,6 +188,10 @@ inline void apply_track_op(World& w, S& s, Ctx& ctx, bool hostile)
         TrackModel tm{t.handle, dj::track_snapshot{}, ""};
         bool threw = false;
         size_t k = s.below(setters().size());
+        if (s.below(6) == 5)
+            for (size_t i = 0; i < setters().size(); ++i)
+                if (std::string(setters()[i].name) == "relative_path")
+                    k = i;   // the one setter with derived stored columns (file name, extension / file type)
         std::string d = apply_setter(k, s, ctx, w.schema, tm, threw, ++w.serial);
         w.hist += " | t" + std::to_string(t.id) + ".set_" + d.substr(0, 60);
         ctx.label(std::string(w.v2 ? "2.x:" : "1.x:") + "set_" + setters()[k].name);
